@@ -36,6 +36,12 @@ func (e *Exec) callBuiltin(caller *frame, fn *ssa.Builtin, args []Value) Value {
 			panic(staleRead{st.Where})
 		}
 	}
+	if e.merge != nil {
+		switch fn.Name() {
+		case "append", "copy", "delete":
+			panic(mergeAbort{"builtin with effects inside pure region"})
+		}
+	}
 	switch fn.Name() {
 	case "append":
 		if len(args) == 1 {
@@ -756,6 +762,16 @@ func init() {
 				}
 				return bstrEq(s[:len(pre)], pre)
 			}
+			if s0, ok := a[0].(string); ok && hasTok(s0) {
+				// decidable when the literal head of the rope is at least as long as the prefix
+				head, pre := s0[:strings.IndexByte(s0, 0)], concStr(e, a[1])
+				if len(head) >= len(pre) {
+					return cBool(strings.HasPrefix(head, pre))
+				}
+				if !strings.HasPrefix(pre, head) {
+					return tFalse
+				}
+			}
 			return cBool(strings.HasPrefix(concStr(e, a[0]), concStr(e, a[1])))
 		},
 		"strings.HasSuffix": func(e *Exec, c *frame, a []Value) Value {
@@ -1068,6 +1084,7 @@ func init() {
 		return cFP(v, 64), err
 	})
 	registerEnvStubs()
+	registerCtxStubs()
 }
 
 func fpToBits(t *Term) *Term {
